@@ -2,6 +2,60 @@ package main
 
 import "strings"
 
+const c07RetentionReplay = `package mocker_test
+
+import (
+	"fmt"
+	"runtime"
+	"testing"
+	"time"
+
+	mocker "github.com/tencent/goom"
+)
+
+type demoSpeaker interface {
+	Say(name string) string
+	Shout(name string) string
+}
+
+type demoState struct{ tag [256]int }
+
+//go:noinline
+func mockWith(v *demoSpeaker, st1, st2 *demoState) {
+	mock := mocker.Create()
+	mock.Interface(v).Method("Say").Apply(func(ctx *mocker.IContext, name string) string {
+		return fmt.Sprint("say:", st1.tag[0], name)
+	})
+	mock.Interface(v).Method("Shout").Apply(func(ctx *mocker.IContext, name string) string {
+		return fmt.Sprint("shout:", st2.tag[0], name)
+	})
+	// the builder is dropped here; the variable keeps holding the mock
+}
+
+func TestGovcReplay(t *testing.T) {
+	var v demoSpeaker
+	collected := make(chan string, 2)
+	st1, st2 := &demoState{}, &demoState{}
+	runtime.SetFinalizer(st1, func(*demoState) { collected <- "state captured by the Say callback" })
+	runtime.SetFinalizer(st2, func(*demoState) { collected <- "state captured by the Shout callback" })
+	mockWith(&v, st1, st2)
+	st1, st2 = nil, nil
+	for i := 0; i < 8; i++ {
+		runtime.GC()
+		time.Sleep(5 * time.Millisecond)
+	}
+	select {
+	case what := <-collected:
+		t.Fatalf("%s was garbage collected although the variable still holds the mock (the stub jumps through a dangling func value)", what)
+	default:
+	}
+	if got := v.Say("x"); got != "say:0x" {
+		t.Fatalf("Say = %q", got)
+	}
+	runtime.KeepAlive(&v)
+}
+`
+
 const c07TwoVarsReplay = `package mocker_test
 
 import (
@@ -37,6 +91,9 @@ func init() {
 		ID:      "C07",
 		Explain: "slot/frame contracts on the fabricated interface value: method slot == index of the named method, every other slot == the panicking default, first mock backs up the variable and Cancel writes exactly that back, stub bytes load the callback's func value (C15) into space from stub.Acquire (C20)",
 		Replay: func(o *Options, g *groupResult, model map[string]string) (string, string, bool) {
+			if strings.Contains(g.name, "iface.GenCallableMethod#") {
+				return ".", c07RetentionReplay, true
+			}
 			if strings.Contains(g.name, ".Builder).Interface#") {
 				return ".", c07TwoVarsReplay, true
 			}
